@@ -403,6 +403,15 @@ def exec_step(step, sess, chains, audit):
                 obs['expected_vdigest'] = rt.expected_vdigest_for(cls, received, explicit_values)
             except Exception as e:
                 obs['helper_exc'] = f'{type(e).__name__}: {e}'[:300]
+            obs['n_records_after_value'] = len(rt.STATE['records']) - n_before
+            if step.get('force_mock') and step.get('use_test_chain') and mocks and 'helper_exc' not in obs:
+                # forcing a MOCKED task with recomputation (by the name / class it was given under): the mock stays a mock, the tested task runs again
+                try:
+                    mk_ = next(iter(mocks))
+                    tc.force(mk_ if isinstance(mk_, str) else mk_.fullname(tc.config), recompute=True)
+                    obs['force_mock_vdigest'] = rt.vdigest(helper.value)
+                except Exception as e:
+                    obs['force_mock_exc'] = f'{type(e).__name__}: {e}'[:300]
             obs['helper_base'] = str(helper.get_config().base_dir)
             obs['helper_files'] = sorted(str(p.relative_to(helper.get_config().base_dir)) for p in Path(helper.get_config().base_dir).rglob('*') if p.is_file()) \
                 if Path(helper.get_config().base_dir).exists() else []
